@@ -1017,7 +1017,7 @@ where
             return Self::send_status(exchange, IMStatusCode::ResourceExhausted).await;
         };
 
-        let primed = self.report_data(&mut rctx, &mut tx, exchange, true).await?;
+        let (primed, _) = self.report_data(&mut rctx, &mut tx, exchange, true).await?;
 
         if primed {
             exchange
@@ -1350,11 +1350,15 @@ where
                 let result = self.process_subscription(matter, &mut rctx).await;
 
                 match result {
-                    Ok(true) => rctx.set_keep(),
+                    Ok((true, true)) => rctx.set_keep(),
+                    // The report turned out empty and - not being due yet - was
+                    // not sent: the subscriber heard nothing from us, so its
+                    // liveness clock (and ours) must keep running.
+                    Ok((true, false)) => rctx.set_keep_not_sent(),
                     // Not kept: the subscriber tore the subscription down (or we
                     // could not report). Dropping it from the table on `rctx`
                     // drop means its persisted record must be purged too.
-                    Ok(false) => dropped_any = true,
+                    Ok((false, _)) => dropped_any = true,
                     Err(e) => {
                         // Reporting failed — typically because the session to the
                         // subscriber died (peer unreachable, MRP retransmissions
@@ -1409,7 +1413,7 @@ where
         &self,
         matter: &Matter<'_>,
         rctx: &mut ReportContext<'_, '_, B, NS>,
-    ) -> Result<bool, Error> {
+    ) -> Result<(bool, bool), Error> {
         // Route the report by the subscriber's `(fabric, node)`: reuse the best
         // live session to that peer, or (with the `case-responder-only` feature
         // off) establish a fresh one on demand. A subscription is identified by
@@ -1435,7 +1439,7 @@ where
                 rctx.subscription().ids(),
             );
 
-            Ok(false)
+            Ok((false, false))
         }
     }
 
@@ -1498,7 +1502,7 @@ where
         tx: &mut [u8],
         exchange: &mut Exchange<'_>,
         with_dataver: bool,
-    ) -> Result<bool, Error>
+    ) -> Result<(bool, bool), Error>
     where
         T: DataModel,
     {
@@ -1539,7 +1543,9 @@ where
             );
         }
 
-        Ok(sub_valid)
+        // Also tell the caller whether any `ReportData` message went out at all
+        // (an empty report that is not due yet is skipped).
+        Ok((sub_valid, resp.sent))
     }
 
     /// A utility to fetch a pair of TX/RX buffers for processing an Interaction Model request.
@@ -1865,6 +1871,8 @@ struct ReportDataResponder<'a, 'b, 'c, const NE: usize, C> {
     invoker: HandlerInvoker<'b, 'c, C>,
     event_reader: EventReader,
     events: &'a Events<NE>,
+    /// Whether at least one `ReportData` message was sent by this responder.
+    sent: bool,
 }
 
 impl<'a, 'b, 'c, const NE: usize, C> ReportDataResponder<'a, 'b, 'c, NE, C>
@@ -1889,6 +1897,7 @@ where
             invoker,
             event_reader,
             events,
+            sent: false,
         }
     }
 
@@ -2209,6 +2218,8 @@ where
             .exchange()
             .send(OpCode::ReportData, wb.as_slice())
             .await?;
+
+        self.sent = true;
 
         let cont = match state {
             ReportDataChunkState::ChunkingAttributes => {
